@@ -1294,3 +1294,53 @@ def c20(a):
     v.assumptions += ["'all interleavings' on the real code rests on Send/Sync type checking + the validated absence of state change, not on "
                       "enumeration of schedules (the lazy_static / regex internals are not instrumented)"]
     return v.finish()
+
+
+# ------------------------------------------------------------------------------------------------
+def replay(a):
+    """bin/check <ID> --replay <file>: re-runs exactly the recorded case through recorder and judge."""
+    r = json.load(open(a.replay))
+    case = r.get("case", {})
+    rec = case.get("record") or {}
+    pid = r.get("prop", a.pid)
+    tag = f"{pid}/replay"
+    if "text" in rec and ("runs" in rec or "table" in rec):
+        # expression case: text (+ table) through the entry points that were recorded
+        table = rec.get("table") or t8_table_json()
+        entries = [x["entry"] for x in rec.get("runs", [])] or ["flat", "flat_wo", "deep"]
+        src = work(tag + ".case.ndjson")
+        with open(src, "w") as f:
+            f.write(json.dumps({"table": table, "text": rec["text"], "expect": rec.get("expect", "any"),
+                                **({"semtab": rec["semtab"]} if "semtab" in rec else {})}) + "\n")
+        obs = work(tag + ".obs.ndjson")
+        with open(obs, "w") as fo:
+            fo.write('{"table":[]}\n')
+            fo.flush()
+            p = vlib.run_recorder(["expr", "--forward-all", "--entries", ",".join(entries)], stdin_path=src)
+            fo.write(p.stdout.decode())
+        _, verdicts = pipeline.judge_expr(obs, f"{pid}-replay")
+        bad = [(c, v) for c, v in verdicts.items() if v[1] != "ok"]
+        log(f"replay of `{vlib.uncps(rec['text'])}`: {verdicts}")
+        if bad:
+            log(f"VIOLATION property={pid} replay={a.replay}")
+            return 1
+        return 0
+    if "op" in rec and "w" in rec:
+        src = work(tag + ".case.ndjson")
+        with open(src, "w") as f:
+            f.write(json.dumps({k: v for k, v in rec.items() if k not in ("res", "case", "req")}) + "\n")
+        obs = work(tag + ".obs.ndjson")
+        vlib.run_recorder(["valgrid"], stdin_path=src, stdout_path=obs)
+        _, verdicts = pipeline.judge_expr(obs, f"{pid}-replay", module="Judge_Val")
+        log(f"replay of {describe_val(json.loads(open(obs).readline()))}: {verdicts}")
+        if any(v[1] != "ok" for v in verdicts.values()):
+            log(f"VIOLATION property={pid} replay={a.replay}")
+            return 1
+        return 0
+    if "history" in case:
+        log("session replays need the table of the run: re-run the check with the same VERIF_SEED "
+            f"(seed {r.get('seed')}, tier {r.get('tier')}); recorded history: {json.dumps(case['history'])[:400]}")
+        return REGISTRY[pid](a)
+    log(f"no dedicated replay for this record shape: re-running the check with seed {r.get('seed')}")
+    os.environ["VERIF_SEED"] = str(r.get("seed", 1))
+    return REGISTRY[pid](a)
